@@ -22,13 +22,13 @@ HERE = os.path.dirname(os.path.abspath(__file__))
 sys.path.insert(0, HERE)
 
 from sa.index import AnalysisError, Repo  # noqa: E402
-from sa.report import Ctx, load_known, write_evidence  # noqa: E402
+from sa.report import Ctx, load_known, run_module, write_evidence  # noqa: E402
 
 
 def run_property(prop: str, repo: Repo, tier: str) -> Ctx:
     mod = importlib.import_module(f"checks.{prop.lower()}")
     ctx = Ctx(prop, repo, tier)
-    mod.run(ctx)
+    run_module(mod, ctx)
     return ctx
 
 
@@ -54,6 +54,8 @@ def main(argv=None) -> int:
         failed = ctx.failed()
         known_hit = [o for o in failed if o.key in known_keys]
         violations = [o for o in failed if o.key not in known_keys]
+        if ctx.aborted and not violations:
+            raise AnalysisError(ctx.aborted)
 
         if args.explain:
             try:
@@ -111,6 +113,8 @@ def main(argv=None) -> int:
                     json.dump([o.as_sample() | {"key": o.key} for o in violations], fh, indent=1)
             for o in violations:
                 print(f"FINDING: {o.site()} {o.oid} [{o.rule}] {o.func}: {o.construct} -- {o.detail}")
+            if ctx.aborted:
+                print(f"NOTE: the property-specific analysis stopped early ({ctx.aborted}); the findings above were decided before that")
             print(f"VIOLATION property={prop} replay={vpath}")
             return 1
         if ctx.floor_failures:
